@@ -194,6 +194,7 @@ def where_indices(ex, st, m, line):
         return out
     n0 = len(st.pc)
     out = _where_indices(ex, st, m, line)
+    out.where_of = m                    # provenance: x in out  <=>  0 <= x < len(mask) and mask[x]   (the positions where the mask holds, none missing)
     memo[key] = (out, list(st.pc[n0:]))
     return out
 
@@ -265,6 +266,7 @@ def mask_select(ex, st, base, m, line):
     out = fresh_seq("sel", "nd", "int", n=idx.n, dtype=base.dtype)
     for j in range(k):
         st.assume(z3.Implies(j < idx.n, out.arr[j] == base.at(idx.arr[j])))
+    out.maxlen = k
     return out
 
 
@@ -491,3 +493,22 @@ def np_union1d(ex, e, st):
     out = fresh_seq("union", "nd", "int", dtype="int")
     st.assume(out.n >= 0)
     return out
+
+
+@lib("min")
+def np_min(ex, e, st):
+    """numpy.min of a non-empty integer matrix: a lower bound of every entry that is attained."""
+    if not numpy_name(ex, "min") or len(e.args) != 1 or e.keywords:
+        raise U("min() with these arguments")
+    v = ex.ev(e.args[0], st)
+    if not isinstance(v, (Mat, MatLazy)):
+        raise U("numpy.min of a non-matrix")
+    ex.trusted_used.add("numpy.min(matrix): <= every entry and equal to some entry; ValueError on an empty matrix")
+    ex.may_raise(st, "ValueError", z3.Or(v.rows <= 0, v.cols <= 0), f"min-of-empty:{ex.ordinal('min')}", e.lineno)
+    m, r_, c_ = fresh("min"), fresh("minrow"), fresh("mincol")
+    r, c = z3.Int("r#min"), z3.Int("c#min")
+    pat = v.arr2[r][c] if isinstance(v, Mat) else None
+    body = z3.Implies(z3.And(0 <= r, r < v.rows, 0 <= c, c < v.cols), v.at(r, c) >= m)
+    st.assume(z3.ForAll([r, c], body, patterns=[pat]) if pat is not None else z3.ForAll([r, c], body))
+    st.assume(z3.And(0 <= r_, r_ < v.rows, 0 <= c_, c_ < v.cols, v.at(r_, c_) == m))
+    return m
